@@ -2,6 +2,7 @@ import AvroModel.Theorems.C08
 import AvroModel.Theorems.C08pcf
 import AvroModel.Theorems.C18
 import AvroModel.Theorems.C08spec
+import AvroModel.Theorems.C08injective
 /-
 C08 — all parts together: the checksum (`C08.lean`, every byte string), the canonical-form
 writer (`C08pcf.lean`), and the composition "fingerprint = little-endian CRC-64-AVRO of the
